@@ -111,9 +111,9 @@ CHECKS = {
 
 # Extensions made after the seeding rounds (DESIGN.md §11.8): appended to the level text of each check.
 EXT = {
- "C01": " Extended: AllocateWithMAC entry point, lease pools advanced by the allocator's own ticker under testing/synctest with the store echoing local writes, fill/mass-expiry/refill scenarios on 500-4000-unit pools, a three-node PeerPool cluster over an in-memory transport (forwarded paths), hostile subscriber identifiers, placements just outside the range, delegation lengths beyond /64, holders re-asking while a store write fails; a failed release that forgets the holder while the store keeps the record.",
- "C02": " Extended: DECLINE/RELEASE/REQUEST naming foreign, offered, free and outside addresses, pool-cycling symbols that walk the whole free list, offer-unique clause, pool geometries as a dimension.",
- "C03": " Extended: every IP identification/TOS value per pool and reply shape (header arithmetic), near-miss circuit-ids from stations without a binding, hardware addresses of 6-16 octets, circuit-ids longer than the key, replacement of the CPE behind a circuit-id (random and scripted).",
+ "C01": " Extended: AllocateWithMAC entry point, lease pools advanced by the allocator's own ticker under testing/synctest with the store echoing local writes, fill/mass-expiry/refill scenarios on 500-4000-unit pools, a three-node PeerPool cluster over an in-memory transport (forwarded paths), hostile subscriber identifiers, placements just outside the range, delegation lengths beyond /64, holders re-asking while a store write fails; a failed release that forgets the holder while the store keeps the record; overlapping calls on one subscriber (releases, re-asks, first asks) from a spin barrier on a long-lived pool, judged at quiescence.",
+ "C02": " Extended: DECLINE/RELEASE/REQUEST naming foreign, offered, free and outside addresses, pool-cycling symbols that walk the whole free list, offer-unique clause, pool geometries as a dimension; lease times much longer than the offer hold with several cleanup ticks under a valid lease, re-DISCOVER by lease holders, hardware addresses of 3-16 octets, abandoned offers must lapse.",
+ "C03": " Extended: every IP identification/TOS value per pool and reply shape (header arithmetic), near-miss circuit-ids from stations without a binding, hardware addresses of 6-16 octets, circuit-ids longer than the key, replacement of the CPE behind a circuit-id (random and scripted); the fast path configured by bng's own control plane (Server.Start on interfaces with and without a hardware address; refused and further AddPool/RemovePool calls between client exchanges).",
  "C04": " Extended: session-id counter placed at and across its wrap with live low ids in every phase (hook-placed and by real churn), ownership record judged on every PADS; composed link of the real Authenticator, IPCP automaton and address pool (no address allocated, suggested or acknowledged before the session's authentication was accepted).",
  "C05": " Extended as C01, plus conservation across an owner outage of the PeerPool cluster (listed known finding).",
  "C06": " Extended: Option 82 at every inspected offset with trailing sub-options, LPM keys for every prefix length, every keyed entry written by the real writer and looked for by the real program (VLAN pair, circuit-id, MAC, ALG trigger), values written by the real dhcp.Server on an ACK; one long-lived loader with histories of other subscribers before every judged entry, read-back and removal under the derived key, antispoof MAC key end to end over every bit pattern.",
@@ -130,7 +130,7 @@ EXT = {
  "C17": " Extended: exhaustive Add/Remove(/health) membership histories against a set model, random clusters, owner-outage phase, end-to-end serving agreement with adversarial node names in every configuration order and across health/membership changes.",
  "C18": " Extended: accepted bindings stay in force when the binding table (declared type, shrunk) is full, incl. churn.",
  "C19": " Extended: asymmetric and one-direction-unlimited policies, previous control-plane states (same name redefined, override keeping the name, removed), near-miss policy names, accepted policies when the maps are full (maps of the declared type shrunk), the contract across DHCP renewals while traffic flows; control-plane histories on bucket maps that fill at different moments (installs refused half way, removals, bystanders) judged in the kernel after every call.",
- "C20": " Extended: concurrent callers of the VLAN allocator on the same and on different NTEs.",
+ "C20": " Extended: concurrent callers of the VLAN allocator on the same and on different NTEs; concurrent callers of the QinQ mapper judged by existence of an explaining order.",
 }
 
 REASON_TODO = "check not yet built in this revision of /verif (planned in DESIGN.md §5); nothing is claimed for it"
